@@ -64,6 +64,12 @@ CHECKS = {
    text="Values are constructed relative to the grid (multiples, midpoints, +-1ns, cell ends) at the type limits, around zero and uniformly, for Timestamp, Time, DateTime (years <= 0 over-weighted), SignedDuration, Offset and Zoned (around every zone's transitions, real day lengths); all nine modes; legal divisors and illegal increments. Results, errors and increment legality are compared with an exact i128 oracle.",
    note="Trusted: wide.rs round_to (nine modes from their definitions), refcal/reftz. Hour increments other than 1 for SignedDuration/Offset are not settled by the docs: either outcome accepted. Non-contiguous civil days (fold straddling midnight) are not judged for day rounding.",
    design="DESIGN.md section 3 C10"),
+ "C11": dict(
+   technique="proptest against independent reference arithmetic (walked calendar, RFC 8536/POSIX zone reader, i128/rational): law-level oracle for Span::round over the full option product and every reference kind, exact i128 oracle for uniform units, exact rational oracle for Span::total (unit window found by search with addition), end-point ordering for Span::compare, exact (r+span)-r for to_duration, exact sums for uniform checked_add/sub, refusal rules",
+   category="exploration",
+   text="Spans of any unit mix and both signs x reference {none, Date, DateTime, Zoned at/near transitions of every zone, days-are-24-hours marker} x smallest x largest x increment x 9 modes. Checked: units outside [largest, smallest] zero; smallest field a multiple of the increment; r+result is the neighbour the mode prescribes among r+(result with its smallest field +-increment), boundaries and ties strictly; uniform cases field-for-field; balancing (ns, 1) leaves r+span unchanged; totals to 2^-44 relative; compare = order of r+a, r+b; invalid options and calendar units without reference must be Err; nothing-near-a-limit must be Ok.",
+   note="Stated tolerances (each counted in the evidence): f64 band for calendar smallest units strictly inside a decision point, half-even ties either way, Temporal-conformant quirks where jiff follows its documented model but the literal statement does not hold (bubbling onto a clamped day of month; re-rounding the remainder across a day whose length is not a multiple of the increment; wall-clock reading of whole units inside a fold for totals), no verdict next to transitions that skip a whole day. Listed finding: smallest=day, largest=week, increment>1 leaves a day field that is not a multiple of the increment.",
+   design="DESIGN.md section 3 C11"),
  "C12": dict(
    technique="model-based proptest: Span operation histories against a (magnitudes, sign) model with the documented sign rule; SignedDuration ops against one i128 nanosecond count; float constructors against the exact decomposition of the IEEE value",
    category="exploration",
